@@ -13,7 +13,9 @@ EXPLANATION = (
     'functor\'s slashes, SSEQ between root categories), modifier shortcut, head_is_left=False, registry and '
     'dispatch as for C03; plus R4.3 for the unary labels: every label of _unary_rule_symbol is reachable (no '
     'statically constant branch test such as comparing an uncalled method with a literal), the adnominal branch '
-    'distinguishes two labels and the adverbial branch three, each depending on the shape of the argument.')
+    'distinguishes two labels and the adverbial branch three, each depending on the shape of the argument.'
+    ' The dispatch fold also checks what the combinators are applied to (the inputs themselves).'
+)
 TRUSTED = ['CPython ast', 'schema table in sa/rules_grammar.py (from the property statement)', 'independent pattern parser sa/symcat.py',
            'class table of depccg/cat.py (which names are methods, which are properties)']
 
